@@ -14,7 +14,8 @@ Core Lean only (linked into `Drivers/CLiteral.lean`).  Four parts:
    `prec`, the scale `2^bias` (`value = m * 2^E / 2^bias`, so that `E = 0` is the subnormal range) and the largest `E`.
 3. **The literal language of C11 / C++14** restricted to what constants use: decimal / octal-zero integer literals with
    suffixes, decimal floating literals, `true` / `false`, unary minus, binary minus, division, C casts and
-   `static_cast` to `float` / `double`, parentheses.  Lexer, parser, and an evaluator with the integer-literal typing
+   `static_cast` to `float` / `double`, parentheses.  Lexer (a number token is the maximal preprocessing number,
+   C11 6.4.8, which must then be a literal of the fragment), parser, and an evaluator with the integer-literal typing
    rule (first type of the standard's list that can represent the value; LP64: `int` 32 bit, `long` = `long long` = 64
    bit), integer promotions, usual arithmetic conversions, signed overflow as an error, floating literals and
    floating division correctly rounded (IEEE 754 / Annex F; what gcc and clang do on this host).
